@@ -41,7 +41,7 @@ ASSUMPTIONS = [
 ]
 REQUIRED_CLASSES = ['n>total', 'empty-vector', 'all-inf', 'nan-present', 'tie-straddles-N-cut',
                     'cut-strictly-inside', 'kept-all', 'kept-none', 'model_fluxes-None', 'unsorted-through-sort',
-                    'longer-vector']
+                    'longer-vector', 'flags-changed-on-live-source']
 
 INF = float('inf')
 NAN = float('nan')
@@ -300,9 +300,44 @@ def _explore(rec, case_id, chi, nd, flags, with_mf, presort, do_pairs):
         frontier = nxt
 
 
+def _live_source(rec, chi):
+    """n_data is a property of the source as it is NOW: flags re-assigned or changed in place between two
+    selections must be honoured (E and F divide by the current count of flags 1/4)."""
+    for flags, edits in (([1, 1, 4, 0, 2], [(0, 0), (3, 1), (2, 9)]), ([1, 4, 3, 9], [(1, 2), (3, 4)])):
+        for mode in ('inplace', 'setter'):
+            for sel in [s for s in SELECTORS if s[0] in 'EF']:
+                o = _mk(chi, flags, True)
+                cur = list(flags)
+                o.keep(('A', 0))
+                _ = o.source.n_data              # a first read, so that anything remembered is populated
+                for pos, newflag in edits:
+                    cur[pos] = newflag
+                    if mode == 'inplace':
+                        o.source.valid[pos] = newflag
+                    else:
+                        o.source.valid = np.array(cur)
+                    o2 = _mk(chi, flags, True)
+                    o2.source = o.source
+                    nd = selref.n_data(cur)
+                    if nd == 0:
+                        continue
+                    before = _snapshot(o2)
+                    o2.keep(sel)
+                    rec.trans()
+                    rec.ev()
+                    rec.cls('flags-changed-on-live-source')
+                    k = selref.kept([float(x) for x in chi], nd, sel)
+                    bad = _check_step(before, o2, k)
+                    if bad:
+                        rec.violation('keep|%s|stale-n_data' % sel[0], {'chi': _enc(chi), 'flags_now': cur, 'how': mode, 'sel': sel},
+                                      {'problem': bad[1], 'n_data_now': nd, 'source.n_data': int(o.source.n_data), 'expected_kept': k})
+
+
 def run_case(ctx, case, rec, d):
     if case['kind'] in ('ranked', 'longer'):
         chi = _dec(case['chi'])
+        if len(chi) in (3, 4) and not any(c != c for c in chi):
+            _live_source(rec, chi)
         if case['kind'] == 'longer':
             rec.cls('longer-vector')
         do_pairs = len(chi) <= ctx['pairs_lmax'] or case['kind'] == 'longer' and ctx['tier'] == 'thorough'
